@@ -167,6 +167,10 @@ def gen(ctx):
                               ("GetPlaylists", [("playlist", "p"), ("Last-Modified", v)]),
                               ("Queue", [("file", "f"), ("Range", v), ("Prio", v)]), ("Queue", [("file", "f"), ("duration", v)]),
                               ("Find", [("file", "f"), ("Last-Modified", v)]), ("GetEnabledTagTypes", [("tagtype", v)]),
+                              # entry-start lines with every value (an empty url is 'no song in progress' for the builder)
+                              ("Queue", [("file", v)]), ("CurrentSong", [("file", v), ("Title", "t")]), ("Find", [("file", "a"), ("file", v), ("file", "b")]),
+                              ("ListAllIn", [("directory", v), ("file", v), ("playlist", v), ("Last-Modified", "2024-01-02T03:04:05Z")]),
+                              ("GetPlaylist", [("file", v), ("directory", "d"), ("file", v)]),
                               ("StickerGet", [("sticker", v)]), ("AlbumArt", [("size", v)])):
             cases.append(typed_case(ident, None, wire(fields, b"x" if ident == "AlbumArt" else None)))
             dist["value-sweep"] = dist.get("value-sweep", 0) + 1
